@@ -17,6 +17,15 @@ fn main() {
         .map(|n| n[..3].to_string())
         .collect();
     mods.sort();
+    // SNT_ONLY=c05,c20 restricts the build to the listed property modules, so that a check of one
+    // property does not depend on the harness code of another one still compiling
+    if let Ok(only) = env::var("SNT_ONLY") {
+        let keep: Vec<String> = only.split(',').map(|s| s.trim().to_lowercase()).filter(|s| !s.is_empty()).collect();
+        if !keep.is_empty() {
+            mods.retain(|m| keep.contains(m));
+        }
+    }
+    println!("cargo:rerun-if-env-changed=SNT_ONLY");
     let mut out = String::new();
     for m in &mods {
         out.push_str(&format!("#[path = \"{}/{}.rs\"]\npub mod {};\n", src.display(), m, m));
@@ -40,6 +49,14 @@ fn main() {
         .map(|n| n[..n.len() - 3].to_string())
         .collect();
     tools.sort();
+    // a tool may name the property modules it needs in a header comment `// requires: c02, c05`;
+    // it is left out of builds restricted (SNT_ONLY) to other modules
+    tools.retain(|t| {
+        let text = fs::read_to_string(src.join(format!("{}.rs", t))).unwrap_or_default();
+        text.lines().take(8).filter_map(|l| l.trim().strip_prefix("// requires:")).all(|reqs| {
+            reqs.split(',').map(|r| r.trim().to_lowercase()).filter(|r| !r.is_empty()).all(|r| mods.contains(&r))
+        })
+    });
     for t in &tools {
         out.push_str(&format!("#[path = \"{}/{}.rs\"]\npub mod {};\n", src.display(), t, t));
     }
